@@ -51,6 +51,7 @@ type Report struct {
 	Notes      []string
 	funcs      map[string]bool
 	curRule    string
+	Alts       []*Loaded
 }
 
 func newReport(prop string, l *Loaded) *Report {
@@ -76,7 +77,18 @@ func (r *Report) add(st Status, key string, pos token.Pos, fn *ssa.Function, wha
 		o.Func = fn.String()
 		r.funcs[o.Func] = true
 		if !pos.IsValid() {
-			o.Site = r.L.pos(fn.Pos())
+			pos = fn.Pos()
+		}
+		// positions belong to the file set of the load the function came from
+		if fn.Prog != nil && fn.Prog.Fset != r.L.Fset {
+			for _, alt := range r.Alts {
+				if alt.Fset == fn.Prog.Fset {
+					o.Site = alt.pos(pos)
+					o.Config = alt.Config
+				}
+			}
+		} else {
+			o.Site = r.L.pos(pos)
 		}
 	}
 	r.Obls = append(r.Obls, o)
